@@ -1,8 +1,8 @@
 ---------------------- MODULE SupportedOpsReport ----------------------
 (* GENERATED at check time from the SUPPORTED_OPS.md the working tree produces
    (harness/supported_report.py).  The copy under /verif/spec is only a snapshot for syntax checks. *)
-Covered == {"ADD", "AVERAGE_POOL_2D", "CONV_2D", "DEPTHWISE_CONV_2D", "FULLY_CONNECTED", "MAX_POOL_2D", "MUL", "RESHAPE", "SUB"}
-InTable == {"ADD", "AVERAGE_POOL_2D", "CONV_2D", "DEPTHWISE_CONV_2D", "FULLY_CONNECTED", "MAX_POOL_2D", "MUL", "RESHAPE", "SUB"}
+Covered == {"ADD", "AVERAGE_POOL_2D", "CONV_2D", "DEPTHWISE_CONV_2D", "EXPAND_DIMS", "FULLY_CONNECTED", "MAX_POOL_2D", "MEAN", "MUL", "RESHAPE", "SQUEEZE", "SUB"}
+InTable == {"ADD", "AVERAGE_POOL_2D", "CONV_2D", "DEPTHWISE_CONV_2D", "EXPAND_DIMS", "FULLY_CONNECTED", "MAX_POOL_2D", "MEAN", "MUL", "RESHAPE", "SQUEEZE", "SUB"}
 Unmodelled == {}
 ApFHi == 8
 ApFLo == 1
@@ -14,12 +14,12 @@ ApVPHi == 65536
 ApVPLo == 1
 BatchExempt == {"FULLY_CONNECTED", "RESHAPE", "SHAPE", "SLICE", "SOFTMAX", "SPLIT", "SPLIT_V", "SQUEEZE", "STRIDED_SLICE", "UNPACK"}
 BatchVal == 1
-BiasBits == [CONV_2D |-> 40, DEPTHWISE_CONV_2D |-> 40, MAX_POOL_2D |-> 0, AVERAGE_POOL_2D |-> 0, ADD |-> 0, SUB |-> 0, MUL |-> 0, FULLY_CONNECTED |-> 40, RESHAPE |-> 0]
-BiasTypes == [CONV_2D |-> {"int32", "int64"}, DEPTHWISE_CONV_2D |-> {"int32", "int64"}, MAX_POOL_2D |-> {}, AVERAGE_POOL_2D |-> {}, ADD |-> {}, SUB |-> {}, MUL |-> {}, FULLY_CONNECTED |-> {"int32", "int64"}, RESHAPE |-> {}]
-DilHHi == [CONV_2D |-> 64, DEPTHWISE_CONV_2D |-> 64, MAX_POOL_2D |-> 0, AVERAGE_POOL_2D |-> 0, ADD |-> 0, SUB |-> 0, MUL |-> 0, FULLY_CONNECTED |-> 0, RESHAPE |-> 0]
-DilHLo == [CONV_2D |-> 1, DEPTHWISE_CONV_2D |-> 1, MAX_POOL_2D |-> 0, AVERAGE_POOL_2D |-> 0, ADD |-> 0, SUB |-> 0, MUL |-> 0, FULLY_CONNECTED |-> 0, RESHAPE |-> 0]
-DilPHi == [CONV_2D |-> 4096, DEPTHWISE_CONV_2D |-> 4096, MAX_POOL_2D |-> 0, AVERAGE_POOL_2D |-> 0, ADD |-> 0, SUB |-> 0, MUL |-> 0, FULLY_CONNECTED |-> 0, RESHAPE |-> 0]
-DilPLo == [CONV_2D |-> 1, DEPTHWISE_CONV_2D |-> 1, MAX_POOL_2D |-> 0, AVERAGE_POOL_2D |-> 0, ADD |-> 0, SUB |-> 0, MUL |-> 0, FULLY_CONNECTED |-> 0, RESHAPE |-> 0]
+BiasBits == [CONV_2D |-> 40, DEPTHWISE_CONV_2D |-> 40, MAX_POOL_2D |-> 0, AVERAGE_POOL_2D |-> 0, ADD |-> 0, SUB |-> 0, MUL |-> 0, FULLY_CONNECTED |-> 40, RESHAPE |-> 0, SQUEEZE |-> 0, EXPAND_DIMS |-> 0, MEAN |-> 0]
+BiasTypes == [CONV_2D |-> {"int32", "int64"}, DEPTHWISE_CONV_2D |-> {"int32", "int64"}, MAX_POOL_2D |-> {}, AVERAGE_POOL_2D |-> {}, ADD |-> {}, SUB |-> {}, MUL |-> {}, FULLY_CONNECTED |-> {"int32", "int64"}, RESHAPE |-> {}, SQUEEZE |-> {}, EXPAND_DIMS |-> {}, MEAN |-> {}]
+DilHHi == [CONV_2D |-> 64, DEPTHWISE_CONV_2D |-> 64, MAX_POOL_2D |-> 0, AVERAGE_POOL_2D |-> 0, ADD |-> 0, SUB |-> 0, MUL |-> 0, FULLY_CONNECTED |-> 0, RESHAPE |-> 0, SQUEEZE |-> 0, EXPAND_DIMS |-> 0, MEAN |-> 0]
+DilHLo == [CONV_2D |-> 1, DEPTHWISE_CONV_2D |-> 1, MAX_POOL_2D |-> 0, AVERAGE_POOL_2D |-> 0, ADD |-> 0, SUB |-> 0, MUL |-> 0, FULLY_CONNECTED |-> 0, RESHAPE |-> 0, SQUEEZE |-> 0, EXPAND_DIMS |-> 0, MEAN |-> 0]
+DilPHi == [CONV_2D |-> 4096, DEPTHWISE_CONV_2D |-> 4096, MAX_POOL_2D |-> 0, AVERAGE_POOL_2D |-> 0, ADD |-> 0, SUB |-> 0, MUL |-> 0, FULLY_CONNECTED |-> 0, RESHAPE |-> 0, SQUEEZE |-> 0, EXPAND_DIMS |-> 0, MEAN |-> 0]
+DilPLo == [CONV_2D |-> 1, DEPTHWISE_CONV_2D |-> 1, MAX_POOL_2D |-> 0, AVERAGE_POOL_2D |-> 0, ADD |-> 0, SUB |-> 0, MUL |-> 0, FULLY_CONNECTED |-> 0, RESHAPE |-> 0, SQUEEZE |-> 0, EXPAND_DIMS |-> 0, MEAN |-> 0]
 DimHi == 65535
 DimLo == 1
 DwSHi == 3
@@ -28,6 +28,12 @@ FafOutTypes == {"int16", "int8", "uint8"}
 FafSet == {"LOGISTIC", "RELU", "RELU6", "RELU_N1_TO_1", "TANH"}
 Int32Ops == {"ADD", "ARG_MAX", "MUL", "SHAPE", "SUB", "TRANSPOSE"}
 MaxRank == 4
+MeanDMax == 4096
+MeanMinRank == 2
+MeanProdI16 == 65536
+MeanProdI8 == 16777216
+MeanProdU8 == 8388608
+MeanWMax == 4096
 MpHHi == 256
 MpHLo == 1
 MpPHi == 65536
@@ -35,12 +41,12 @@ MpPLo == 1
 PerAxisOps == {"CONV_2D", "DEPTHWISE_CONV_2D", "TRANSPOSE_CONV"}
 PsHi == 3
 PsLo == 1
-ScHHi == [CONV_2D |-> 3, DEPTHWISE_CONV_2D |-> 0, MAX_POOL_2D |-> 0, AVERAGE_POOL_2D |-> 3, ADD |-> 0, SUB |-> 0, MUL |-> 0, FULLY_CONNECTED |-> 0, RESHAPE |-> 0]
-ScHLo == [CONV_2D |-> 1, DEPTHWISE_CONV_2D |-> 0, MAX_POOL_2D |-> 0, AVERAGE_POOL_2D |-> 1, ADD |-> 0, SUB |-> 0, MUL |-> 0, FULLY_CONNECTED |-> 0, RESHAPE |-> 0]
-ScWHi == [CONV_2D |-> 3, DEPTHWISE_CONV_2D |-> 0, MAX_POOL_2D |-> 0, AVERAGE_POOL_2D |-> 3, ADD |-> 0, SUB |-> 0, MUL |-> 0, FULLY_CONNECTED |-> 0, RESHAPE |-> 0]
-ScWLo == [CONV_2D |-> 1, DEPTHWISE_CONV_2D |-> 0, MAX_POOL_2D |-> 0, AVERAGE_POOL_2D |-> 1, ADD |-> 0, SUB |-> 0, MUL |-> 0, FULLY_CONNECTED |-> 0, RESHAPE |-> 0]
+ScHHi == [CONV_2D |-> 3, DEPTHWISE_CONV_2D |-> 0, MAX_POOL_2D |-> 0, AVERAGE_POOL_2D |-> 3, ADD |-> 0, SUB |-> 0, MUL |-> 0, FULLY_CONNECTED |-> 0, RESHAPE |-> 0, SQUEEZE |-> 0, EXPAND_DIMS |-> 0, MEAN |-> 0]
+ScHLo == [CONV_2D |-> 1, DEPTHWISE_CONV_2D |-> 0, MAX_POOL_2D |-> 0, AVERAGE_POOL_2D |-> 1, ADD |-> 0, SUB |-> 0, MUL |-> 0, FULLY_CONNECTED |-> 0, RESHAPE |-> 0, SQUEEZE |-> 0, EXPAND_DIMS |-> 0, MEAN |-> 0]
+ScWHi == [CONV_2D |-> 3, DEPTHWISE_CONV_2D |-> 0, MAX_POOL_2D |-> 0, AVERAGE_POOL_2D |-> 3, ADD |-> 0, SUB |-> 0, MUL |-> 0, FULLY_CONNECTED |-> 0, RESHAPE |-> 0, SQUEEZE |-> 0, EXPAND_DIMS |-> 0, MEAN |-> 0]
+ScWLo == [CONV_2D |-> 1, DEPTHWISE_CONV_2D |-> 0, MAX_POOL_2D |-> 0, AVERAGE_POOL_2D |-> 1, ADD |-> 0, SUB |-> 0, MUL |-> 0, FULLY_CONNECTED |-> 0, RESHAPE |-> 0, SQUEEZE |-> 0, EXPAND_DIMS |-> 0, MEAN |-> 0]
 ScalarOps == {"ADD", "ARG_MAX", "EXPAND_DIMS", "MAXIMUM", "MEAN", "MINIMUM", "MUL", "QUANTIZE", "SPLIT", "SPLIT_V", "SUB"}
 TypeSet == {"int16", "int32", "int8", "uint8"}
-WSumMax == [CONV_2D |-> 8323072, DEPTHWISE_CONV_2D |-> 8323072, MAX_POOL_2D |-> 0, AVERAGE_POOL_2D |-> 0, ADD |-> 0, SUB |-> 0, MUL |-> 0, FULLY_CONNECTED |-> 0, RESHAPE |-> 0]
-Listed == [CONV_2D |-> {"attrs", "b40", "batch", "bshape", "btype", "defshape", "dil_int", "dilh", "dilprod", "dims", "faf", "faftype", "groups_depth", "groups_filters", "inscalar", "int32ops", "nodynamic", "noneconst", "outscalar", "peraxis", "quant", "rank", "scalef32", "scalefinite", "stride_crit", "stride_int", "types", "w8", "wconst", "wsum"}, DEPTHWISE_CONV_2D |-> {"attrs", "b40", "batch", "bshape", "btype", "defshape", "dil_int", "dilh", "dilprod", "dims", "dw_mult", "dw_stride", "faf", "faftype", "inscalar", "int32ops", "nodynamic", "noneconst", "outscalar", "peraxis", "quant", "rank", "scalef32", "scalefinite", "stride_int", "types", "w8", "wconst", "wsum"}, MAX_POOL_2D |-> {"attrs", "batch", "defshape", "dims", "faf", "faftype", "filter_int", "inout_type", "inscalar", "int32ops", "mp_h", "mp_prod", "nodynamic", "noneconst", "outscalar", "peraxis", "pool_stride", "quant", "rank", "scalef32", "scalefinite", "stride_int", "types"}, AVERAGE_POOL_2D |-> {"ap_filter", "ap_stride_pad", "ap_vh", "ap_vprod", "attrs", "batch", "defshape", "dims", "faf", "faftype", "filter_int", "inout_type", "inscalar", "int32ops", "nodynamic", "noneconst", "outscalar", "peraxis", "quant", "rank", "scalef32", "scalefinite", "stride_crit", "stride_int", "types"}, ADD |-> {"attrs", "batch", "broadcast", "defshape", "dims", "either_shape", "faf", "faftype", "in_types", "inscalar", "int32ops", "nodynamic", "noneconst", "outscalar", "peraxis", "quant", "rank", "scalef32", "scalefinite", "signed", "types", "unsigned"}, SUB |-> {"attrs", "batch", "broadcast", "defshape", "dims", "either_shape", "faf", "faftype", "in_types", "inscalar", "int32ops", "nodynamic", "noneconst", "outscalar", "peraxis", "quant", "rank", "scalef32", "scalefinite", "signed", "types", "unsigned"}, MUL |-> {"attrs", "batch", "broadcast", "defshape", "dims", "either_shape", "faf", "faftype", "in_types", "inscalar", "int32ops", "nodynamic", "noneconst", "outscalar", "peraxis", "quant", "rank", "scalef32", "scalefinite", "signed", "types", "unsigned"}, FULLY_CONNECTED |-> {"attrs", "b40", "bshape", "btype", "defshape", "dims", "faf", "faftype", "fc_2d", "fc_knd", "inscalar", "int32ops", "nodynamic", "noneconst", "outscalar", "peraxis", "quant", "rank", "scalef32", "scalefinite", "types", "w8", "wconst"}, RESHAPE |-> {"attrs", "defshape", "dims", "faf", "faftype", "inscalar", "int32ops", "nodynamic", "noneconst", "outscalar", "peraxis", "quant", "rank", "rs_const", "rs_elems", "rs_quant", "scalef32", "scalefinite", "types"}]
+WSumMax == [CONV_2D |-> 8323072, DEPTHWISE_CONV_2D |-> 8323072, MAX_POOL_2D |-> 0, AVERAGE_POOL_2D |-> 0, ADD |-> 0, SUB |-> 0, MUL |-> 0, FULLY_CONNECTED |-> 0, RESHAPE |-> 0, SQUEEZE |-> 0, EXPAND_DIMS |-> 0, MEAN |-> 0]
+Listed == [CONV_2D |-> {"attrs", "b40", "batch", "bshape", "btype", "defshape", "dil_int", "dilh", "dilprod", "dims", "faf", "faftype", "groups_depth", "groups_filters", "inscalar", "int32ops", "nodynamic", "noneconst", "outscalar", "peraxis", "quant", "rank", "scalef32", "scalefinite", "stride_crit", "stride_int", "types", "w8", "wconst", "wsum"}, DEPTHWISE_CONV_2D |-> {"attrs", "b40", "batch", "bshape", "btype", "defshape", "dil_int", "dilh", "dilprod", "dims", "dw_mult", "dw_stride", "faf", "faftype", "inscalar", "int32ops", "nodynamic", "noneconst", "outscalar", "peraxis", "quant", "rank", "scalef32", "scalefinite", "stride_int", "types", "w8", "wconst", "wsum"}, MAX_POOL_2D |-> {"attrs", "batch", "defshape", "dims", "faf", "faftype", "filter_int", "inout_type", "inscalar", "int32ops", "mp_h", "mp_prod", "nodynamic", "noneconst", "outscalar", "peraxis", "pool_stride", "quant", "rank", "scalef32", "scalefinite", "stride_int", "types"}, AVERAGE_POOL_2D |-> {"ap_filter", "ap_stride_pad", "ap_vh", "ap_vprod", "attrs", "batch", "defshape", "dims", "faf", "faftype", "filter_int", "inout_type", "inscalar", "int32ops", "nodynamic", "noneconst", "outscalar", "peraxis", "quant", "rank", "scalef32", "scalefinite", "stride_crit", "stride_int", "types"}, ADD |-> {"attrs", "batch", "broadcast", "defshape", "dims", "either_shape", "faf", "faftype", "in_types", "inscalar", "int32ops", "nodynamic", "noneconst", "outscalar", "peraxis", "quant", "rank", "scalef32", "scalefinite", "signed", "types", "unsigned"}, SUB |-> {"attrs", "batch", "broadcast", "defshape", "dims", "either_shape", "faf", "faftype", "in_types", "inscalar", "int32ops", "nodynamic", "noneconst", "outscalar", "peraxis", "quant", "rank", "scalef32", "scalefinite", "signed", "types", "unsigned"}, MUL |-> {"attrs", "batch", "broadcast", "defshape", "dims", "either_shape", "faf", "faftype", "in_types", "inscalar", "int32ops", "nodynamic", "noneconst", "outscalar", "peraxis", "quant", "rank", "scalef32", "scalefinite", "signed", "types", "unsigned"}, FULLY_CONNECTED |-> {"attrs", "b40", "bshape", "btype", "defshape", "dims", "faf", "faftype", "fc_2d", "fc_knd", "inscalar", "int32ops", "nodynamic", "noneconst", "outscalar", "peraxis", "quant", "rank", "scalef32", "scalefinite", "types", "w8", "wconst"}, RESHAPE |-> {"attrs", "defshape", "dims", "faf", "faftype", "inscalar", "int32ops", "nodynamic", "noneconst", "outscalar", "peraxis", "quant", "rank", "rs_const", "rs_elems", "rs_quant", "scalef32", "scalefinite", "types"}, SQUEEZE |-> {"attrs", "defshape", "dims", "faf", "faftype", "inscalar", "int32ops", "nodynamic", "noneconst", "outscalar", "peraxis", "quant", "rank", "rs_elems", "rs_quant", "scalef32", "scalefinite", "types"}, EXPAND_DIMS |-> {"attrs", "batch", "defshape", "dims", "faf", "faftype", "inscalar", "int32ops", "nodynamic", "noneconst", "outscalar", "peraxis", "quant", "rank", "rs_elems", "rs_quant", "scalef32", "scalefinite", "types"}, MEAN |-> {"attrs", "batch", "defshape", "dims", "faf", "faftype", "inscalar", "int32ops", "mean_axis", "mean_depth", "mean_prod", "mean_rank", "mean_width", "nodynamic", "noneconst", "outscalar", "peraxis", "quant", "rank", "scalef32", "scalefinite", "types"}]
 =======================================================================
